@@ -386,7 +386,7 @@ def _run_unit_once(unit, obs, tier, seed, keep=False):
             ex = list(extra)
             if sd is not None:
                 ex += ['--smt-option', 'smt.random_seed=%d' % sd]
-            rc, js, diags, stderr, dt, cmd = run_verus(path, ex)
+            rc, js, diags, stderr, dt, cmd = run_verus(path, ex, timeout=unit.get('verus_timeout', 900))
             total_dt += dt
             cmd_s = cmd_s or cmd
             all_results.append(_interpret(unit, obs, linemap, rc, js, diags, stderr, text))
